@@ -29,7 +29,7 @@ def build(U):
         f.text = re.sub(r'extend_from_slice\(b"(\d)"\)', lambda m: 'push(%du8)' % ord(m.group(1)), f.text)
     f1.header("pub fn pttl_to_restore_expire_time(pttl: Vec<u8>) -> (out: Vec<u8>)\n    ensures spec_restore_ttl_ok(pttl@, out@)")
     f1.body_start("    proof { lemma_btoi_minus1(); lemma_btoi_digit(49u8); lemma_btoi_digit(48u8); }")
-    f2.header("fn pttl_need_to_be_no_expire(buf: &[u8]) -> (r: bool)\n    ensures r == (match spec_btoi_i64(buf@) { Some(n) => n < 0, None => true })")
+    f2.header("fn pttl_need_to_be_no_expire(buf: &[u8]) -> (r: bool)\n    ensures match spec_btoi_i64(buf@) { Some(n) => (n < 0 ==> r) && (n > 0 ==> !r), None => true }")
     f2.body_start("    proof { lemma_btoi_minus1(); }")
     U.add_fn(f1)
     U.add_fn(f2)
